@@ -285,6 +285,8 @@ class CallMixin:
                 return o.func
         if isinstance(o, AtRef):
             raise Unsupported("bare .at attribute")
+        if hasattr(o, "pyvc_getattr"):
+            return o.pyvc_getattr(self, name)
         if default is not _MISSING:
             return default
         raise Unsupported(f"getattr {name} on {type(o).__name__}")
